@@ -48,6 +48,26 @@ class HeapEnv(ME.Env):
         return None
 
     def eval(self, e, env, universe):
+        # floating-point facts (NaN / infinity tests of printers): evaluated in Python when an operand is a float
+        if e['k'] == 'FloatingLiteral':
+            try:
+                return float(e.get('v', 0))
+            except (TypeError, ValueError):
+                return 0.0
+        if e['k'] == 'BinaryOperator' and e.get('op') in ('==', '!=', '<', '>', '<=', '>=', '-', '+', '||', '&&'):
+            a = self.eval(e['c'][0], env, universe)
+            if isinstance(a, float) or (isinstance(a, int) and e['op'] in ('||', '&&')):
+                b = self.eval(e['c'][1], env, universe)
+                if (isinstance(a, float) or isinstance(b, float)) and isinstance(b, (int, float)):
+                    op = e['op']
+                    if op in ('||', '&&'):
+                        return int(bool(a) or bool(b)) if op == '||' else int(bool(a) and bool(b))
+                    if op in ('-', '+'):
+                        try:
+                            return a - b if op == '-' else a + b
+                        except Exception:
+                            return float('nan')
+                    return int({'==': a == b, '!=': a != b, '<': a < b, '>': a > b, '<=': a <= b, '>=': a >= b}[op])
         if e['k'] == 'UnaryOperator' and e.get('op') == '&':
             x = F.strip(e['c'][0])
             if x['k'] in ('MemberExpr', 'ArraySubscriptExpr', 'DeclRefExpr'):
@@ -169,6 +189,7 @@ class PrintExec(ME.MiniExec):
         raise F.AnalysisBroken('expression `%s` with side effects not modelled' % F.src(e)[:60])
 
     depth = 0
+    concrete_ints = False
 
     def call_unit_function(self, g, args, env):
         """execute a function of the unit over the same model: parameters are bound by value where the argument evaluates, and by
@@ -222,7 +243,26 @@ class PrintExec(ME.MiniExec):
             if c == 'fprintf':
                 args = F.call_args(s)
                 t = self.fmt(args[1], env)
-                self.out.append(FMT_CONV.sub(lambda m: 'X' if m.group(1) == 's' else '9', t))
+                rest = list(args[2:])
+
+                def conv(m):
+                    # `*` width / precision arguments are consumed too
+                    stars = m.group(0).count('*')
+                    for _ in range(stars):
+                        if rest:
+                            rest.pop(0)
+                    a = rest.pop(0) if rest else None
+                    if m.group(1) == 's':
+                        return 'X'
+                    if self.concrete_ints and a is not None and m.group(1) in 'duxi':
+                        try:
+                            v = self.val(a, env)
+                        except F.AnalysisBroken:
+                            v = None
+                        if isinstance(v, int):
+                            return str(v)
+                    return '9'
+                self.out.append(FMT_CONV.sub(conv, t))
                 return 'fall'
             if c in self.printers:
                 self.out.append(self.printers[c](F.call_args(s), env, self))
